@@ -659,3 +659,182 @@ def log_level_key_roundtrip(via_sink: bool, li: int, ki: int, has_sid: bool) -> 
     post: _
     """
     return _roundtrip(via_sink, li, "text", ki < 6, ki if ki < 6 else 0, "v", has_sid)
+
+
+# ---------------------------------------------------------------------------
+# (c) HTTP producer turns: logs emitted through ctx or through the collector, on any produce()
+#     call of any turn, reach the client once, in order, before the batch they precede
+# ---------------------------------------------------------------------------
+# The real _run_http_producer_turn (several produce() calls may share one HTTP turn, depending on
+# max_response_bytes), real pyarrow; the step script, the log route of every step and the cap are
+# symbolic.  The client side follows continuation tokens the way HttpStreamSession.__iter__ does.
+
+from dataclasses import dataclass  # noqa: E402
+
+from vgi_rpc.http.server import _app_stream as aps  # noqa: E402
+from typing import Protocol  # noqa: E402
+
+from vgi_rpc.rpc import ProducerState, Stream  # noqa: E402
+from vgi_rpc.rpc._common import _EMPTY_SCHEMA, AuthContext  # noqa: E402
+
+_P: dict = {"script": (0, 0, 0), "n": 0, "i": 0}
+_ROUTE_NONE, _ROUTE_CTX, _ROUTE_OUT = 0, 1, 2
+_CAPS = (None, 1, 1_000_000)  # one produce() per turn (no cap / tiny cap) or all of them in one turn
+
+
+@dataclass
+class _LoggingProducer(ProducerState):
+    def produce(self, out, ctx) -> None:  # type: ignore[no-untyped-def]
+        i = _P["i"]
+        _P["i"] = i + 1
+        if i >= _P["n"]:
+            out.finish()
+            return
+        k = _P["script"][i]
+        route = k % 3
+        if route == _ROUTE_CTX:
+            ctx.client_log(Level.INFO, "m-%d" % i)
+        elif route == _ROUTE_OUT:
+            out.client_log(Level.INFO, "m-%d" % i)
+        out.emit(_BATCHES[i])
+        if k >= 3:
+            out.finish()
+
+
+class _TurnServer:
+    server_id = "srv"
+    protocol_name = "P"
+    external_config = None
+    transport_kind = None
+    implementation = None
+
+
+class _TurnApp:
+    _server = _TurnServer()
+    _max_externalized_response_bytes = None
+    _token_key = b"k" * 32
+    _state_types = {"gen": _LoggingProducer}
+
+    def __init__(self, cap) -> None:  # type: ignore[no-untyped-def]
+        self._max_response_bytes = cap
+
+
+def _stub_mint_cursor(state, state_info, call_id, token_key, auth):  # type: ignore[no-untyped-def]
+    """Ideal AEAD: an opaque token that (on the next turn) opens to the same state."""
+    return b"CURSOR", b"state"
+
+
+_producer_turn_rg = reglobalize(aps._run_http_producer_turn, _mint_cursor_token=_stub_mint_cursor)
+
+
+def _expected_sequence(n: int, script: tuple) -> list:
+    want: list = []
+    for i in range(n):
+        k = script[i]
+        if k % 3 != _ROUTE_NONE:
+            want.append(("log", "m-%d" % i))
+        want.append(("data", i))
+        if k >= 3:
+            break
+    return want
+
+
+def _drive_producer_turns(cap, n: int, script: tuple):  # type: ignore[no-untyped-def]
+    _P["script"] = script
+    _P["n"] = n
+    _P["i"] = 0
+    app = _TurnApp(cap)
+    seen: list = []
+    logs: list = []
+    for _turn in range(8):
+        body = _producer_turn_rg(
+            app, schema=_SCHEMA, state=_LoggingProducer(), input_schema=_EMPTY_SCHEMA, method_name="gen", stream_id="sid", call_id=b"c",
+            auth=AuthContext.anonymous(), transport_metadata={}, outcome=aps._DispatchOutcome(),
+        )
+        rd = ValidatedReader(ipc.open_stream(body), IpcValidation.FULL)
+        token = None
+        while True:
+            try:
+                batch, cm = rd.read_next_batch_with_custom_metadata()
+            except StopIteration:
+                break
+            if batch.num_rows == 0 and cm is not None and cm.get(md.STATE_KEY) is not None:
+                token = cm.get(md.STATE_KEY)
+                continue
+            before = len(logs)
+            if wire._dispatch_log_or_error(batch, cm, logs.append):
+                if len(logs) != before + 1:
+                    return None
+                seen.append(("log", logs[-1].message))
+            else:
+                seen.append(("data", batch))
+        if token is None:
+            return seen
+    return None  # never finished
+
+
+class _LogProto(Protocol):
+    def gen(self) -> Stream[ProducerState]: ...
+
+
+class _LogImpl:
+    def gen(self) -> Stream[_LoggingProducer]:
+        return Stream(output_schema=_SCHEMA, state=_LoggingProducer())
+
+
+def _replay_http_producer(args: dict) -> str | None:
+    """Un-stubbed: the real HTTP stack (falcon WSGI app, real tokens) and the real client session with on_log."""
+    from vgi_rpc.http import http_connect, make_sync_client
+    from vgi_rpc.rpc import RpcServer
+
+    P, Impl = _LogProto, _LogImpl
+    script = (args["s0"], args["s1"], args["s2"])
+    _P.update(script=script, n=args["n"], i=0)
+    seen: list = []
+    client = make_sync_client(RpcServer(P, Impl(), server_id="srv"), token_key=b"k" * 32, max_response_bytes=_CAPS[args["cap"]])
+    with http_connect(P, client=client, on_log=lambda m: seen.append(("log", m.message))) as proxy:
+        for ab in proxy.gen():
+            seen.append(("data", ab.batch.column(0)[0].as_py() - 100))
+    want = _expected_sequence(args["n"], script)
+    # the session pre-loads a whole turn, so callbacks may run ahead of the yields: compare what the
+    # property states (each log once, in order, before the batch it precedes; data in order)
+    ok = [x for x in seen if x[0] == "log"] == [x for x in want if x[0] == "log"] and [x for x in seen if x[0] == "data"] == [x for x in want if x[0] == "data"]
+    if ok:
+        for j, item in enumerate(want):
+            if item[0] == "log" and seen.index(item) > seen.index(want[j + 1]):
+                ok = False
+    if not ok:
+        return "HTTP producer (max_response_bytes=%r) emitted %r; the client saw %r" % (_CAPS[args["cap"]], want, seen)
+    return None
+
+
+@cond(q=60, t=240, encoded=[aps._run_http_producer_turn, ty.OutputCollector.emit_client_log_message, wire._flush_collector, wire._dispatch_log_or_error],
+      stubs=["_mint_cursor_token := opaque token that opens to the same state (ideal AEAD)", "_HttpRpcApp := object with the attributes the turn reads"],
+      replay=_replay_http_producer, signature=lambda a, c: "C08:http-producer:log-lost-or-reordered",
+      bound="producer scripts of <= 3 steps, each step logging through ctx / through the collector / not at all and emitting, optionally finishing; max_response_bytes in {None, 1, 1e6} (one produce() per HTTP turn, or all in one turn)")
+def http_producer_logs_delivered(cap: int, n: int, s0: int, s1: int, s2: int) -> bool:
+    """
+    pre: 0 <= cap <= 2 and 0 <= n <= 3
+    pre: 0 <= s0 <= 5 and 0 <= s1 <= 5 and 0 <= s2 <= 5
+    post: _
+    """
+    try:
+        seen = _drive_producer_turns(_CAPS[cap], n, (s0, s1, s2))
+    except Exception:  # noqa: BLE001
+        return False
+    if seen is None:
+        return False
+    want = _expected_sequence(n, (s0, s1, s2))
+    if len(seen) != len(want):
+        return False
+    for j in range(len(want)):
+        kind, v = want[j]
+        gkind, g = seen[j]
+        if kind != gkind:
+            return False
+        if kind == "log":
+            if g != v:
+                return False
+        elif not g.equals(_BATCHES[v]):
+            return False
+    return True
